@@ -109,16 +109,17 @@ def _bounded_worker(args):
                  "traceback": traceback.format_exc()[-1500:]}, "clause": "no internal exception"}
         finally:
             signal.alarm(0)
-        if r["status"] == "ok":
-            n_ok += 1
-            if r.get("nontrivial", True):
-                nontrivial.add(r.get("key", i))
-        elif r["status"] == "skip":
-            n_skip += 1
-        else:
-            fails.append((i, r))
-            if len(fails) >= 5:
-                break
+        for r in (r["results"] if r["status"] == "multi" else [r]):
+            if r["status"] == "ok":
+                n_ok += 1
+                if r.get("nontrivial", True):
+                    nontrivial.add(r.get("key", i))
+            elif r["status"] == "skip":
+                n_skip += 1
+            else:
+                fails.append((i, r))
+        if len(fails) >= int(b.get("max_failures_per_chunk", 25)):
+            break
     return n_ok, n_skip, len(nontrivial), fails
 
 
@@ -144,21 +145,21 @@ def run_bounded(reg, b, tier, seed, procs):
             for r in pool.imap_unordered(_bounded_worker, jobs):
                 res.append(r)
                 nf += len(r[3])
-                if nf >= int(b.get("max_failures", 6)):
+                if nf >= int(b.get("max_failures", 400)):
                     pool.terminate()   # enough concrete failing inputs; the rest of the domain is not explored
                     break
     else:
         for j in jobs:
             r = _bounded_worker(j)
             res.append(r)
-            if sum(len(x[3]) for x in res) >= int(b.get("max_failures", 6)):
+            if sum(len(x[3]) for x in res) >= int(b.get("max_failures", 400)):
                 break
     ok = sum(r[0] for r in res)
     skip = sum(r[1] for r in res)
     nontriv = sum(r[2] for r in res)
     fails = [f for r in res for f in r[3]]
     return {"name": key, "label": b.get("label", ""), "cases": n, "ok": ok, "skipped": skip, "nontrivial": nontriv,
-            "fails": [(i, cases[i], r) for i, r in fails], "wall_s": round(time.time() - t, 2),
+            "fails": [(i, r.get("witness_case", cases[i]), r) for i, r in fails], "wall_s": round(time.time() - t, 2),
             "exhaustive": bool(b.get("exhaustive", False)), "sample": [concretise.jsonable(c) for c in cases[:2]]}
 
 
@@ -310,9 +311,9 @@ def run(a):
         undecided.append({"obligation": m, "why": "expected obligation no longer generated (code shape changed; contract must be revisited)"})
     # bounded failures are concrete inputs: report each as a violation with its replay
     for reg, b, r in bounded_results:
-        for i, case, res in r["fails"][:50]:
+        for n_, (i, case, res) in enumerate(r["fails"][:200]):
             os.makedirs(replay_dir, exist_ok=True)
-            path = os.path.join(replay_dir, _safe("%s-%d" % (b["name"], i)) + ".json")
+            path = os.path.join(replay_dir, _safe("%s-%d-%d" % (b["name"], i, n_)) + ".json")
             json.dump({"property": pid, "obligation": "bounded:" + b["name"], "function": b.get("contract") or b.get("label"),
                        "inputs": concretise.jsonable(case), "clause": res.get("clause"), "observed": res.get("observed"), "why": res.get("why")},
                       open(path, "w"), indent=1, default=str)
